@@ -593,9 +593,8 @@ def finish (h : Header) : PRes Unit → Result
   | .ub u evs => ⟨.ub u, some h, evs.reverse⟩
   | .fuel => ⟨.fuel, some h, []⟩
 
-/-- `mp::ReadNLString(NLStringRef(data, size), handler, name, flags)` -/
-def readNL (data : ByteArray) (flags : Nat) (objsel : Option Nat) : Result :=
-  let inp : Inp := ⟨data⟩
+/-- `mp::ReadNLString(str, handler, name, flags)` for an `NLStringRef` `inp` -/
+def readNLInp (inp : Inp) (flags : Nat) (objsel : Option Nat) : Result :=
   match readHeader inp ⟨0, 0, 0, 1⟩ with
   | .err e => ⟨.err e, none, []⟩
   | .ub u => ⟨.ub u, none, []⟩
@@ -607,5 +606,68 @@ def readNL (data : ByteArray) (flags : Nat) (objsel : Option Nat) : Result :=
     else if h.arith_kind == 2 then        -- the other IEEE byte order
       finish h (readBody ⟨inp, .bin true, h, flags, objsel⟩ ⟨r, []⟩)
     else ⟨.err ⟨.unsarith, false, 0, 0⟩, some h, []⟩
+
+/-- `mp::ReadNLString(NLStringRef(data, size), handler, name, flags)` on the bytes `data` -/
+def readNL (data : ByteArray) (flags : Nat) (objsel : Option Nat) : Result :=
+  readNLInp (Inp.ofBytes data) flags objsel
+
+/-! ### NLFileReader::Read -/
+
+/-- `NLFileReader<>::Read(filename, handler, flags)` on a file with the bytes `content` and page size
+    `pageSize`: `Open` rounds the size up to a page multiple; if the size already is one, the file is copied
+    into a `size + 1` buffer with a NUL appended (copy path); otherwise it is mapped and the rest of the last
+    page is zero-filled by the OS (mmap path).  Both paths call `ReadNLString(NLStringRef(buf, size), handler,
+    filename, flags)`. -/
+def fileBuffer (content : ByteArray) (pageSize : Nat) : Array UInt8 :=
+  let size := content.size
+  let remainder := size % pageSize
+  let rounded := if remainder != 0 then size + pageSize - remainder else size
+  if size == rounded then content.data.push 0
+  else content.data ++ Array.replicate (rounded - size) 0
+
+theorem pushBuf_nul (a : Array UInt8) : ∀ p, a.size ≤ p → bufRd (a.push 0) p = 0 := by
+  intro p hp
+  unfold bufRd
+  split
+  · rename_i hlt
+    rw [Array.getElem_push]
+    split
+    · omega
+    · rfl
+  · rfl
+
+theorem padBuf_nul (a : Array UInt8) (k : Nat) : ∀ p, a.size ≤ p → bufRd (a ++ Array.replicate k 0) p = 0 := by
+  intro p hp
+  unfold bufRd
+  split
+  · rename_i hlt
+    rw [Array.getElem_append]
+    split
+    · omega
+    · simp
+  · rfl
+
+theorem fileBuffer_nul (content : ByteArray) (pageSize : Nat) :
+    ∀ p, content.size ≤ p → bufRd (fileBuffer content pageSize) p = 0 := by
+  intro p hp
+  have hsz : content.data.size = content.size := rfl
+  unfold fileBuffer
+  simp only
+  generalize (if (content.size % pageSize != 0) = true then content.size + pageSize - content.size % pageSize
+    else content.size) = rounded
+  by_cases h : (content.size == rounded) = true
+  · rw [if_pos h]; exact pushBuf_nul content.data p (by omega)
+  · rw [if_neg h]; exact padBuf_nul content.data _ p (by omega)
+
+def readNLFile (content : ByteArray) (pageSize : Nat) (flags : Nat) (objsel : Option Nat) : Result :=
+  let size := content.size
+  let remainder := size % pageSize
+  let rounded := if remainder != 0 then size + pageSize - remainder else size
+  if size == rounded then
+    -- copy path
+    readNLInp ⟨bufRd (fileBuffer content pageSize), size, fileBuffer_nul content pageSize⟩ flags objsel
+  else
+    -- mmap path
+    readNLInp ⟨bufRd (fileBuffer content pageSize), size, fileBuffer_nul content pageSize⟩ flags objsel
 
 end MpVerif.C02
